@@ -96,11 +96,11 @@ func vfModifyCut(sched int) {
 		vfParamsMsg(),
 		{ElectionId: id},
 		{Operation: []*spb.AFTOperation{vfNHOp(1, DefaultNetworkInstanceName, 1, id)}},
-		{Operation: []*spb.AFTOperation{vfNHOp(2, DefaultNetworkInstanceName, 2, id)}},
+		{Operation: []*spb.AFTOperation{vfNHOp(2, DefaultNetworkInstanceName, 2, id), vfNHOp(3, DefaultNetworkInstanceName, 3, id)}},
 	}
 	st := &vfFaultyModStream{vfModStream: vfModStream{msgs: script}, cutAfter: len(script), sendFailAt: -1}
 	if vfBool("send-fault") {
-		st.sendFailAt = vfInt("send-fail-at", 0, 3)
+		st.sendFailAt = vfInt("send-fail-at", 0, 4)
 	} else {
 		st.cutAfter = vfInt("cut-after", 0, 4)
 		switch vfInt("cut-mode", 0, 2) {
@@ -124,10 +124,14 @@ func vfModifyCut(sched int) {
 	// PRESERVE: what was programmed before the cut stays, nothing else appears; the session's footprint is gone
 	vfAssert(len(s.cs) == 0, "C10:disconnected-session-removed")
 	var have []uint64
-	for _, idx := range []uint64{1, 2} {
+	for _, idx := range []uint64{1, 2, 3} {
 		if vfNHInstalled(s.masterRIB, DefaultNetworkInstanceName, idx) {
 			have = append(have, idx)
-			vfAssert(st.pos >= int(idx)+2, "C10:only-received-operations-are-programmed")
+			need := int(idx) + 2
+			if idx == 3 {
+				need = 4 // operations 2 and 3 travel in the same (fourth) message
+			}
+			vfAssert(st.pos >= need, "C10:only-received-operations-are-programmed")
 		}
 	}
 	if s.curElecID != nil {
